@@ -1,8 +1,8 @@
-import XmppModel.Prelude.Hex
-/-! Driver module for C04: `handle args` answers one protocol line (fields after the
-property id); `none` means the line is not understood (`!bad-op`). -/
+import XmppModel.Driver.C01
+/-! Driver for C04: the negotiation model of C01 with faults (same line syntax, see
+`Driver/C01.lean`). -/
 namespace XmppModel.Driver.C04
 
-def handle (_args : List String) : Option String := none
+def handle (args : List String) : Option String := XmppModel.Driver.C01.handle args
 
 end XmppModel.Driver.C04
